@@ -39,7 +39,8 @@ ASSUMPTIONS = [
 REACH = {t: ["versions_11", "cur_below", "cur_equal", "cur_above", "cur_unreadable", "override_default",
              "override_nondefault", "disabled_default", "disabled_nondefault", "rejected_then_accepted",
              "buffer_count_written", "buffer_count_overridden", "capacity_kept", "capacity_grown",
-             "value_setting_written", "rejection_status_family_covered", "override_equal_to_library_default"] for t in ("quick", "thorough")}
+             "value_setting_written", "rejection_status_family_covered", "override_equal_to_library_default",
+             "written_through_application", "written_again_by_application_reset"] for t in ("quick", "thorough")}
 SHARD_TIMEOUT = {"quick": 900, "thorough": 3600}
 PBC = "CONFIG_PACKET_BUFFER_COUNT"
 
@@ -54,7 +55,9 @@ def shards(tier, seed):
 
     per = 1 if tier == "quick" else 4
     n = 400 if tier == "quick" else 3000
-    return [{"version": v, "part": p, "n": n, "seed": seed} for v in sorted(e.EZSP._BY_VERSION) for p in range(per)]
+    out = [{"version": v, "part": p, "n": n, "seed": seed} for v in sorted(e.EZSP._BY_VERSION) for p in range(per)]
+    out += [{"version": v, "part": "app", "n": 6 if tier == "quick" else 40, "seed": seed} for v in sorted(e.EZSP._BY_VERSION)]
+    return out
 
 
 def run_shard(desc) -> Acc:
@@ -65,6 +68,8 @@ def run_shard(desc) -> Acc:
     import bellows.ezsp.config as ecfg
     import bellows.types as t
 
+    if desc.get("part") == "app":
+        return run_app_shard(desc)
     logmode.apply(desc)
     acc = Acc()
     install_status_contract(acc)
@@ -290,6 +295,122 @@ def run_shard(desc) -> Acc:
         vloop.run(main)
     except ncpsim.BringUpFailed:
         pass
+    return acc
+
+
+def run_app_shard(desc) -> Acc:
+    """The same trace specification with the configuration write driven the way it really is: through
+    ControllerApplication.connect() (and _reset()) with the user's `ezsp_config`, on every version."""
+    import bellows.config as bconf
+    import bellows.ezsp as e
+    import bellows.ezsp.config as ecfg
+    import bellows.types as t
+    from .. import appharness
+
+    logmode.apply(desc)
+    acc = Acc()
+    install_status_contract(acc)
+    V = desc["version"]
+    rnd = random.Random(desc["seed"] * 77 + V)
+    cls = e.EZSP._BY_VERSION[V]
+    schema = cls.SCHEMAS[bconf.CONF_EZSP_CONFIG].schema
+    known = {str(k.schema) if hasattr(k, "schema") else str(k) for k in schema}
+    defaults = {cfg.config_id.name: int(cfg.value) for cfg in ecfg.DEFAULT_CONFIG[V] if isinstance(cfg, ecfg.RuntimeConfig)}
+    cid = lambda name: int(t.EzspConfigId[name])  # noqa: E731
+    cname = lambda num: t.EzspConfigId(num).name  # noqa: E731
+    # (the multicast table size is answered by the multicast-table model, not by the store)
+    caps = sorted(n for n in known if is_capacity(n) and n != "CONFIG_MULTICAST_TABLE_SIZE")
+    import voluptuous as vol
+
+    keyobj = {(str(k.schema) if hasattr(k, "schema") else str(k)): (k, v) for k, v in schema.items()}
+
+    def valid(name, cands):
+        k, validator = keyobj[name]
+        for c in cands:
+            try:
+                vol.Schema({k: validator})({name: c})
+                return c
+            except Exception:  # noqa: BLE001
+                continue
+        return None
+
+    async def one(loop, it):
+        ap = appharness.AppStack(loop, V)
+        appharness.preformed_network(ap.net)
+        store = ap.ncp.state["config"]
+        current = {}
+        for n in caps:
+            current[n] = rnd.choice([2, 12, 20, 26, 40, 64, 200])
+            store.values[cid(n)] = current[n]
+        overrides = {}
+        if it % 3 == 1:
+            for n in rnd.sample(caps, min(2, len(caps))):
+                v_ = valid(n, rnd.sample([3, 9, 17, 2, 1, 30], 6))
+                if v_ is not None:
+                    overrides[n] = v_
+        if it % 3 == 2 and PBC in known:
+            v_ = valid(PBC, [0xFE, 0xFF, 200, 100, 64])
+            if v_ is not None:
+                overrides[PBC] = v_
+            nd = [n for n in known if n not in defaults and n != PBC and n != "CONFIG_MULTICAST_TABLE_SIZE"]
+            if nd:
+                n_ = rnd.choice(sorted(nd))
+                v_ = valid(n_, [5, 2, 1, 8, 16, 0])
+                if v_ is not None:
+                    overrides[n_] = v_
+        case = {"version": V, "via": "ControllerApplication", "current": current, "overrides": overrides, "iteration": it}
+        acc.case()
+        try:
+            await ap.connect(config_extra={bconf.CONF_EZSP_CONFIG: dict(overrides)}, start=False)
+        except BaseException as ex:  # noqa: BLE001
+            acc.violation("C16/call/raised", f"application connect (which writes the configuration) raised {ex!r}", case)
+            return
+        logs = [list(store.log)]
+        if it % 2:
+            n0 = len(store.log)
+            try:
+                await ap.app._reset()
+                logs.append(store.log[n0:])
+                acc.hit("written_again_by_application_reset")
+            except BaseException as ex:  # noqa: BLE001
+                acc.violation("C16/call/raised", f"application _reset() raised {ex!r}", case)
+        for log in logs:
+            sets = [(cname(i), v) for (k, i, v, ok) in log if k == "cfg"]
+            names = [n for n, _ in sets]
+            bad = []
+            for n in set(names):
+                if names.count(n) > 1:
+                    bad.append(("C16/once/setting-written-twice", f"{n} set {names.count(n)} times"))
+            for n, v in sets:
+                user = n in overrides
+                if not user and is_capacity(n) and current.get(n) is not None and v < current[n]:
+                    who = "v7-schema-default-KEY_TABLE_SIZE" if n == "CONFIG_KEY_TABLE_SIZE" and V == 7 else n
+                    bad.append((f"C16/shrink/{who}", f"{n} lowered from the reported {current[n]} to {v} although the user did not supply it "
+                                "(configuration written through the application)"))
+                if user and v != overrides[n]:
+                    bad.append(("C16/override/not-written-exactly", f"user value {n}={overrides[n]} written as {v}"))
+                if n in current:
+                    current[n] = v
+            for n, v in overrides.items():
+                if n not in names:
+                    bad.append(("C16/override/not-written-exactly", f"user value {n}={v} was not written"))
+            allsets = [(k, (cname(i) if k == "cfg" else int(i))) for (k, i, v, ok) in log]
+            if PBC in names and allsets and allsets[-1][1] != PBC:
+                bad.append(("C16/order/buffer-count-not-last", f"{PBC} was followed by {[x[1] for x in allsets[[x[1] for x in allsets].index(PBC) + 1:]]}"))
+            for key, msg in bad[:3]:
+                acc.violation(key, msg, case, [repr(x) for x in sets])
+        acc.hit("written_through_application")
+        acc.nontrivial((V, "app", it, tuple(sorted(current.items())), tuple(sorted(overrides.items()))))
+        if len(acc.samples) < 1:
+            acc.sample({"case": case, "set_frames": [repr(x) for x in logs[0]][:30]})
+
+    for it in range(desc["n"]):
+        async def main(loop, it=it):
+            await one(loop, it)
+        try:
+            vloop.run(main)
+        except vloop.Deadlock:
+            acc.violation("C16/hang", "loop ran dry while the application wrote the configuration", {"version": V, "iteration": it})
     return acc
 
 
